@@ -53,6 +53,11 @@ def isOk : Res α → Bool
   | .ok _ => true
   | _ => false
 
+/-- the error kind, if the result is an error (used to state examples without decidable equality on α). -/
+def errKind? : Res α → Option CoseErr
+  | .err e => some e
+  | _ => none
+
 def isPanic : Res α → Bool
   | .panic _ => true
   | _ => false
